@@ -21,8 +21,13 @@ RULE = ('(a) a fixed battery plus seeded random strings over the XML Char range 
         'content alone and inside a parent (indentation aside). (b) per element-content type: every <=2 additions with one '
         'serialisation at every position (both flags), every <=1 addition + one other operation + serialisation, every [addition, serialisation, one change of that child, serialisation], and seeded '
         'serialisation-heavy histories: replayed without the serialisation calls, every other result and the final '
-        'text / verdict / acceptance vector must agree. non-trivial = accepted string (a) / history with a successful '
-        'serialisation (b)')
+        'text / verdict / acceptance vector must agree. (c) nested documents (3+ levels) generated from the reference grammar: '
+        'the whole tree and a subtree are serialised before and between 1-3 API mutations of nodes anywhere below (attribute, '
+        'value, child added / removed); a twin that is never serialised before the end must give the same final text or '
+        'refusal. (d) value kinds: the text written for an int / float in integer- and decimal-typed positions must not depend '
+        'on an equal value of the other kind serialised earlier (digits masked, fresh numbers). non-trivial = accepted '
+        'string (a) / history with a successful serialisation (b) / document whose first serialisation succeeds (c) / pair '
+        'of accepted values (d)')
 ASSUMPTIONS = ['xml.etree.ElementTree is the standard parser', 'strings the library rejects are not judged (only accepted ones)']
 TIMEOUT = {'quick': 900, 'thorough': 5400}
 PROPS = ('C16',)
@@ -36,6 +41,8 @@ BATTERY = ['', ' ', 'plain', 'a<b', 'a>b', 'a&b', '&amp;', '&lt;tag&gt;', '"doub
 
 def plan(tier, seed):
     out = [{'mode': 'strings', 'slice': i, 'cost': 2000} for i in range(NSLICES)]
+    out += [{'mode': 'nested', 'slice': i, 'cost': 2500} for i in range(NSLICES)]
+    out += [{'mode': 'kinds', 'slice': i, 'cost': 1000} for i in range(2)]
     for s in _histcheck.plan(lambda t: (len(ref.DFAS[t].alphabet) * (8 if tier == 'quick' else 8 * len(ref.DFAS[t].alphabet)) + 200) * max(1, len(ref.DFAS[t].alphabet) // 2)):
         s['mode'] = 'hist'
         out.append(s)
@@ -190,9 +197,179 @@ def string_class(s):
     return 'plain'
 
 
+def _nested_case(el, lib, mseeds, sub_index, counters=None):
+    """twin A is serialised (whole tree and one subtree) before and between the mutations, twin B never before the end;
+    returns None (results agree), 'inconclusive' or a violation tuple"""
+    from .. import docs
+    from . import c14
+    c = counters if counters is not None else collections.Counter()
+    try:
+        A = docs.build_api(el, lib, check=True)
+        B = docs.build_api(el, lib, check=True)
+    except docs.BuildRefused:
+        c['builder_refused'] += 1
+        return 'inconclusive'
+    if lib.call(A.to_string)[0] == 'exc':
+        c['first_serialisation_refused'] += 1
+        return 'inconclusive'
+    nodes = c14.nodes_of(A)
+    sub = nodes[sub_index % len(nodes)]
+    lib.call(sub.to_string)
+    done = []
+    for ms in mseeds:
+        mA = c14.mutate_tree(A, random.Random(ms), lib)
+        mB = c14.mutate_tree(B, random.Random(ms), lib)
+        done.append(mA)
+        if mA != mB:
+            return ('mutation-outcome-differs-after-serialisation', {'with_serialisations': mA, 'without': mB, 'done': done})
+        if mA is None:
+            break
+        c['mutations_between_serialisations'] += 1
+        if lib.call(A.to_string)[0] == 'exc':
+            # from here on the known effects of a REFUSED serialisation would be mixed in (decided by the history shards)
+            break
+        lib.call(sub.to_string)
+    oa, ob = c14.outcome(A, lib), c14.outcome(B, lib)
+    if oa != ob:
+        last = (done[-1] or 'none').split(' ')[0] if done else 'none'
+        if oa[0] == 'ok' and ob[0] == 'ok':
+            d = docs.infoset_diff(ET.fromstring(ob[1]), ET.fromstring(oa[1]), limit=3)
+            return ('earlier-serialisation-shows-in-later-one', {'diff': [list(map(str, x)) for x in d], 'mutations': done,
+                                                                 'last_mutation': last})
+        return ('earlier-serialisation-changes-later-verdict', {'with_serialisations': oa[0] if oa[0] == 'ok' else oa[1],
+                                                                'without': ob[0] if ob[0] == 'ok' else ob[1],
+                                                                'mutations': done, 'last_mutation': last})
+    return None
+
+
+def run_nested(shard, tier, seed):
+    """nested documents (three and more levels): serialise the whole tree and a subtree, change a node somewhere below through
+    the API (attribute, value, added / removed child), serialise again ... and compare with a twin that was never serialised
+    before the end"""
+    from .. import lib, docs
+    rnd = random.Random('%s:C16:nested:%d' % (seed, shard['slice']))
+    viol = []
+    c = collections.Counter()
+    evals = 0
+    nontriv = 0
+    names = [n for i, n in enumerate(ref.ELEMENT_NAMES) if i % NSLICES == shard['slice'] and ref.eltype(n) in ref.DFAS]
+    per = 3 if tier == 'quick' else 30
+    trees = [(n, (ref.HEIGHT[n] or 0) + rnd.choice([2, 3])) for n in names for _ in range(per)]
+    trees += [('score-partwise', rnd.choice([6, 7])) for _ in range(3 if tier == 'quick' else 20)]
+    for n, depth in trees:
+        el = ref.gen_el(n, rnd, depth, {'pattr': 0.3, 'maxkids': 4, 'skip_attrs': ('xml:lang', 'xml:space', 'name'),
+                                       'skip_elements': ('link', 'opus', 'part-link', 'miscellaneous-field')})
+        mseeds = [rnd.getrandbits(32) for _ in range(rnd.choice([1, 2, 3]))]
+        sub_index = rnd.getrandbits(16)
+        evals += 1
+        res = _nested_case(el, lib, mseeds, sub_index, c)
+        if res == 'inconclusive':
+            continue
+        nontriv += 1
+        c['nested_documents'] += 1
+        c['nested_documents_4_levels_or_more'] += _depth(el) >= 4
+        if res is not None:
+            removed_in = sorted({ref.eltype(m.split(' ')[1].split('>')[0]) for m in res[1].get('mutations', res[1].get('done', []))
+                                 if m and m.startswith('remove ')})
+            viol.append({'sig': {'kind': res[0], 'mech': 'nested-document', 'last_mutation': res[1].get('last_mutation', '?'),
+                                 'removed_in': removed_in},
+                         'case': {'text': docs.to_text(el), 'mseeds': mseeds, 'sub_index': sub_index}, 'detail': res[1]})
+    return {'evaluations': evals, 'distinct_nontrivial': nontriv, 'violations': viol,
+            'samples': [{'root': trees[0][0], 'mutations_between_serialisations': c['mutations_between_serialisations']}],
+            'counters': dict(c, stdio_events=len(lib.STDIO_EVENTS))}
+
+
+def _depth(el):
+    return 1 + max([_depth(k) for k in el] or [0])
+
+
+def _kind_positions(lib):
+    """(description, constructor taking a Python value) for element-text and attribute positions typed as integers and as
+    decimals that admit numbers around one million"""
+    ints, decs = [], []
+    for cn, cls in sorted(lib.CLASSES.items()):
+        t = lib.xsd_type_name(cls)
+        sb = (ref.simple_base(t) if t in ref.ALL else t)
+        if sb and ref.valid(sb, '1000003'):
+            kinds = ref.numeric_kinds(sb)
+            if kinds == {'integer'}:
+                ints.append(('%s text' % cn, lambda v, cls=cls: cls(v, xsd_check=False)))
+            elif 'decimal' in kinds and ref.valid(sb, '1000003.0') and ref.primitive(sb) != 'union':
+                decs.append(('%s text' % cn, lambda v, cls=cls: cls(v, xsd_check=False)))
+        if t in ref.ALL:
+            dv = lib.default_value(cls)
+            for an, at, req in ref.attr_table(t):
+                if at is None or an == 'name' or not ref.valid(at, '1000003'):
+                    continue
+                kinds = ref.numeric_kinds(at)
+                key = an.replace('-', '_')
+                mk = (lambda v, cls=cls, key=key, dv=dv: cls(dv, xsd_check=False, **{key: v}) if dv is not None
+                      else cls(xsd_check=False, **{key: v}))
+                if kinds == {'integer'}:
+                    ints.append(('%s/@%s' % (cn, an), mk))
+                elif 'decimal' in kinds and ref.valid(at, '1000003.0') and ref.primitive(at) != 'union':
+                    decs.append(('%s/@%s' % (cn, an), mk))
+    return ints, decs
+
+
+def run_kinds(shard, tier, seed):
+    """the text written for a value must not depend on which EQUAL value of another Python kind (4 vs 4.0) was serialised
+    earlier in the process: each observation is made once after such a value and once with a number never serialised before;
+    the two texts must agree once the digits of the number are masked"""
+    from .. import lib
+    rnd = random.Random('%s:C16:kinds:%d' % (seed, shard['slice']))
+    viol = []
+    c = collections.Counter()
+    evals = 0
+    nontriv = 0
+    ints, decs = _kind_positions(lib)
+    counter = [1000003 + 500000 * shard['slice']]
+
+    def fresh():
+        counter[0] += 7
+        return counter[0]
+
+    def emit(pos, value, n):
+        r = lib.call(pos[1], value)
+        if r[0] == 'exc':
+            return None
+        r = lib.call(r[1].to_string)
+        if r[0] == 'exc':
+            return None
+        return r[1].replace(str(n), 'N')
+    obs = [(p, int) for p in ints] + [(p, int) for p in decs] + [(p, float) for p in decs]
+    trials = 400 if tier == 'quick' else 6000
+    for _ in range(trials):
+        (p1, k1), (p2, k2) = rnd.choice(obs), rnd.choice(obs)
+        if k1 is k2:
+            continue
+        evals += 1
+        n = fresh()
+        if emit(p1, k1(n), n) is None:
+            continue
+        after = emit(p2, k2(n), n)
+        m = fresh()
+        alone = emit(p2, k2(m), m)
+        if after is None or alone is None:
+            continue
+        nontriv += 1
+        c['kind_pairs'] += 1
+        if after != alone:
+            viol.append({'sig': {'kind': 'text-depends-on-equal-value-of-another-kind-serialised-earlier',
+                                 'first': k1.__name__, 'then': k2.__name__},
+                         'case': {'first': p1[0], 'then': p2[0], 'n': n}, 'detail': {'after': after[:120], 'alone': alone[:120]}})
+    return {'evaluations': evals, 'distinct_nontrivial': nontriv, 'violations': viol,
+            'samples': [{'first': 'XMLAccent/@default-x = 1000010.0', 'then': 'XMLStaves text = 1000010'}],
+            'counters': dict(c, integer_positions=len(ints), decimal_positions=len(decs))}
+
+
 def run_shard(shard, tier, seed):
     if shard['mode'] == 'strings':
         return run_strings(shard, tier, seed)
+    if shard['mode'] == 'nested':
+        return run_nested(shard, tier, seed)
+    if shard['mode'] == 'kinds':
+        return run_kinds(shard, tier, seed)
     t = shard['type']
     a = len(ref.DFAS[t].alphabet)
     if tier == 'quick':
@@ -209,6 +386,18 @@ def run_shard(shard, tier, seed):
 def replay_case(rp):
     from .. import lib
     c = rp['case']
+    if 'mseeds' in c:
+        res = _nested_case(ET.fromstring(c['text'].split('?>', 1)[1]), lib, c['mseeds'], c['sub_index'])
+        return {'violated': res not in (None, 'inconclusive'), 'result': res}
+    if 'then' in c:
+        ints, decs = _kind_positions(lib)
+        pos = dict(ints + decs)
+        k1, k2 = {'int': int, 'float': float}[rp['sig']['first']], {'int': int, 'float': float}[rp['sig']['then']]
+        n, m = c['n'], c['n'] + 3
+        pos[c['first']](k1(n)).to_string()
+        after = pos[c['then']](k2(n)).to_string().replace(str(n), 'N')
+        alone = pos[c['then']](k2(m)).to_string().replace(str(m), 'N')
+        return {'violated': after != alone, 'after': after, 'alone': alone}
     if 'string' in c:
         cls = lib.CLASSES[c['cls']]
         s = c['string']
